@@ -100,10 +100,13 @@ def judge_case(col: common.Collector, ll: codecrun.LoadedLayer, msg: Dict[str, A
         # That excuse only holds if the description really overlaps: a warning for a layout in
         # which the reference finds no bit claimed twice does not excuse anything
         k0, e0 = codecrun.ref_encode(ll.ref, msg, values, request)
-        if not (k0 == "ok" and not e0.overlap and not e0.endmarker):
+        # (the ODX pattern "end-marker field followed by its marker as a constant" claims the
+        # marker's bits twice, with the same value: nothing is overwritten there)
+        benign = k0 == "ok" and e0.endmarker and not e0.conflict
+        if not (k0 == "ok" and not e0.overlap and not e0.endmarker) and not benign:
             col.count("not-judged:overlap-warning-issued")
             return
-        col.count("overlap-warning-without-overlap")
+        col.count("overlap-is-the-end-marker-pattern" if benign else "overlap-warning-without-overlap")
     d = codecrun.decode(obj, pdu)
     if not d.ok and d.exc_type == "DecodeMismatch" and any(p["p"] == "NRC-CONST" for p in msg["params"]):
         # which NRC values a negative response admits is a matching question (C06)
